@@ -2,7 +2,7 @@
    table and none of its configured directories missing. *)
 From LC Require Import Lib.Bytes Lib.Lex Lib.Fields Lib.PathM Gen.Consts
   Model.MountInfo Model.FsTree Model.Kernel Model.Layers Cases.Verdict Cases.LC Cases.C08
-  Proofs.MonadP Proofs.MountInfoP Proofs.PlainRunP Proofs.LayerMapP Proofs.LayerStateP
+  Proofs.MountInfoP Proofs.PlainRunP Proofs.LayerMapP Proofs.LayerStateP
   Proofs.StateForestP Proofs.ViewP Proofs.C08FoldP Proofs.C08DocP Proofs.C08P Proofs.C08ProbeP Proofs.LayerNamesP.
 From Coq Require Import ZifyBool ZifyNat ZifyN.
 Open Scope N_scope.
@@ -120,6 +120,8 @@ Lemma probed_mounted c f um ld l : (st_mounted <=? l_state (probed c f um ld l))
      /\ (l_base l <> [] -> get_mount (pr_mounts (ld_probe ld)) (build_path c l) <> None).
 Proof.
   unfold probed. set (l1 := set_kmounts _ _).
+  destruct (l_state l =? st_error) eqn:Ee.
+  { change (l_state l1) with (l_state l). apply N.eqb_eq in Ee. rewrite Ee. discriminate. }
   destruct (is_dir f (build_path c l)) eqn:E1; cbn [negb]; [|discriminate].
   destruct (match l_base l with [] => false | _ => true end
             && (negb (is_dir f (work_path c l)) || negb (is_dir f (upper_path c l)))) eqn:E2; [discriminate|].
@@ -139,8 +141,7 @@ Lemma fold_probe_inv2 c f um (J : ldefs -> Prop) (P : layer -> Prop) :
 Proof.
   intros HJ HP. induction ns as [|n r IH]; intros ld Hj H; cbn [fold_left]; [exact H|].
   apply IH; [now apply HJ|]. intros l. rewrite probe_layer_eq.
-  destruct (lm_get (ld_map ld) n) as [l0|] eqn:E; [|apply H].
-  destruct (l_state l0 =? st_error); [apply H|]. cbn [ld_map].
+  destruct (lm_get (ld_map ld) n) as [l0|] eqn:E; [|apply H]. cbn [ld_map].
   intros Hin. apply lm_set_in in Hin as [->|Hin]; [|now apply H].
   now apply (HP ld n).
 Qed.
@@ -203,7 +204,7 @@ Proof.
   - rewrite <- minimal_dirs_fhs, (lsim_build c x l' Hxl'). exact Hfhs.
   - rewrite forallb_map. apply forallb_forall. intros x0 Hx0. cbn [em_of_x em_target em_source].
     destruct (Hxs x0 Hx0) as [Hmiss _]. unfold x_miss in Hmiss. apply orb_false_iff in Hmiss as [M1 M2].
-    apply negb_false_iff in M1. rewrite M1. cbn [andb].
+    apply negb_false_iff in M1. rewrite M1. cbn [andb]. unfold src_missing in M2.
     specialize (Hdt x Hxin). rewrite Hxn, Eimp, forallb_map in Hdt. rewrite forallb_forall in Hdt.
     specialize (Hdt x0 Hx0). unfold dir_test_one in Hdt. cbn [em_of_x em_source] in Hdt.
     apply eqb_prop in Hdt. rewrite <- Hdt.
